@@ -255,6 +255,9 @@ def c18(work, tier, seed):
     for key in ("paasign", "sess", "sessenc", "userenc"):
         for ln in (0, 1, 31, 32) + ((33,) if tier == "thorough" else ()):
             scripts.append({"id": "x%05d" % len(scripts), "kind": "cross", "key": key, "len": ln, "auth": ["openid"], "src": "file"})
+            if key in ("sess", "sessenc") and (tier == "thorough" or ln in (0, 31)):
+                # the same with sessions kept in files (both gateways on one machine share the directory they are kept in)
+                scripts.append({"id": "x%05d" % len(scripts), "kind": "cross", "key": key, "len": ln, "auth": ["openid"], "src": "file", "store": "file"})
     out, rep, res = generic("C18", work, tier, seed, "config", "ConfigTrace", scripts, design,
                             lambda v: "%s/%s/%s" % (v["guard"], v["a"], v["b"]),
                             "Config.tla: the lattice {auth subset x TLS x tokenauth x selection mode (roundrobin, signed, unsigned, any, an undocumented word) x query key x keytab x host count} x keyword spellings with the refusal table (design). Conformance: the real binary is started under "
